@@ -251,6 +251,27 @@ func propC10(c *ctx) error {
 			return err
 		}
 	}
+	// ---- the name of a definition is a directive value like any other: its blocks are evaluated (at load, against the
+	// empty scope) and are part of the name; a block that cannot be evaluated then is a load error, never dropped
+	for _, dc := range []struct{ val, name string }{{"card-${'big'}", "card-big"}, {"${'a'}${'b'}", "ab"}, {"x${1 + 1}", "x2"}, {"${'only'}", "only"}, {"pre-${'m'}-post", "pre-m-post"},
+		{"card-${kind}", ""}, {"${nope}", ""}, {"a${1 / 0}", ""}, {"plain", "plain"}} {
+		src := `<p :define="` + dc.val + `">X</p>[<q :insert="` + map[bool]string{true: dc.name, false: "never"}[dc.name != ""] + `">o</q>]`
+		rc := &renderCase{Files: [][2]string{{"t", src}}, Tpl: "t", Data: vMap(kv{"kind", vStr("big")}).j}
+		out, _, err := compareRender(c, rc, true)
+		if err != nil {
+			return err
+		}
+		res.eval("defname|"+src, true, J{"tpl": src})
+		res.S3Checked++
+		res.count("definition_names_with_blocks")
+		if dc.name == "" {
+			if out.Load == "ok" {
+				res.violate(rc.toJ(), "load error", J{"load": out.Load, "st": out.St, "out": out.text()}, "a definition whose name holds a block that cannot be evaluated at load is accepted")
+			}
+		} else if out.Load != "ok" || out.St != "ok" || out.text() != "[<q>X</q>]" {
+			res.violate(rc.toJ(), "[<q>X</q>]", J{"load": out.Load, "st": out.St, "out": out.text(), "err": trunc(out.Err, 160)}, "the blocks of a definition's name are not part of the registered name")
+		}
+	}
 	// ---- the object of a range directive is an expression written WITHOUT a block: it too is consumed whole or rejected
 	// (every non-continuing suffix after a complete object, in every header form)
 	for _, sfx := range suffixes {
